@@ -25,7 +25,7 @@ from ..core import canon, e1
 PROPERTY = "C10"
 LEVEL = "model_checking"
 RULE = (
-    "part 1: three texts with non-ASCII letters in mnemonic, unit, value, description and ~Other (one Latin-1-only) x "
+    "part 1: four texts with non-ASCII letters in mnemonic, unit, value, description and ~Other (general Unicode, Latin-1 subset, wrapped, cp1252's 0x80-0x9F block) x "
     "channel {str path, pathlib.Path, open text file, open file with newline='', StringIO, multi-line string} x storage "
     "{utf-8-sig autodetected, utf-8 autodetected, utf-8 / utf-16 / utf-16-le / utf-16-be / latin-1 / cp1252 with "
     "encoding=} x EOL {LF, CRLF, CR}: strict canonical equality with the plain-string read; part 2: all histories up to "
@@ -53,7 +53,9 @@ T_LATIN = (
     "~Parameter\nBHT.°C 35.5 : bottom hole température\nÅÄÖ.å äö : éèêë\n~Other\nfree text ½ ñ ÿ\n~ASCII\n1.0 10.5\n2.0 -999.25\n"
 )
 T_WRAPPED = T_LATIN.replace("WRAP. NO", "WRAP. YES").replace("1.0 10.5\n2.0 -999.25\n", "1.0\n10.5\n2.0\n-999.25\n")
-TEXTS = {"unicode": T_UNICODE, "latin": T_LATIN, "latin-wrapped": T_WRAPPED}
+# characters of cp1252's 0x80-0x9F block (not in latin-1): a code page must not be replaced by a "close enough" one
+T_CP1252 = T_LATIN.replace("Bohrung Süd ±3", "Bohrung „Süd“ – 3 € ™ Š").replace("free text ½ ñ ÿ", "free text … ‰ œ ž Ÿ ‘x’")
+TEXTS = {"unicode": T_UNICODE, "latin": T_LATIN, "latin-wrapped": T_WRAPPED, "cp1252": T_CP1252}
 
 CHANNELS = ["str-path", "pathlib", "text-file", "text-file-newline-empty", "stringio", "string"]
 STORAGES = [("utf-8-sig", None), ("utf-8", None), ("utf-8", "utf-8"), ("utf-16", "utf-16"), ("utf-16-le", "utf-16-le"),
@@ -79,6 +81,8 @@ def channel_points():
                 continue
             for codec, enc_arg in STORAGES:
                 if tname == "unicode" and codec in ("latin-1", "cp1252"):
+                    continue
+                if tname == "cp1252" and codec == "latin-1":
                     continue
                 for eol in EOLS:
                     pts.append(["chan", tname, ch, codec, enc_arg, eol])
@@ -333,54 +337,86 @@ def units(tier, seed):
     return us
 
 
+def _cleanup_scratch():
+    d = _TMP.pop(os.getpid(), None)
+    if d:
+        shutil.rmtree(d, ignore_errors=True)
+
+
+def _chan_unit(rng):
+    res = {"evals": 0, "nontrivial": 0, "outcomes": {}, "violations": [], "samples": [], "extra": {},
+           "states": set(), "transitions": 0, "traces": 0, "max_depth": 0}
+    pts = channel_points()[rng[0]:rng[1]]
+    for pt in pts:
+        vio = check_channel(pt)
+        res["evals"] += 1
+        res["extra"]["channel_reads"] = res["extra"].get("channel_reads", 0) + 1
+        res["outcomes"]["chan:" + ("violation" if vio else "ok")] = res["outcomes"].get("chan:" + ("violation" if vio else "ok"), 0) + 1
+        res["violations"].extend(vio)
+    if pts:
+        res["samples"].append({"channel_point": pts[0]})
+    res["violations"] = e1.compress(res["violations"])
+    _cleanup_scratch()
+    return res
+
+
+def _process_queue(queue, depth, ref):
+    """Runs histories from the queue (breadth first) in THIS process until the first violation: after a
+    violation the process may carry the damage, so the caller continues the rest of the queue in a fresh fork."""
+    alpha = alphabet()
+    out = {"evals": 0, "ok": 0, "nontriv": 0, "outcomes": {}, "violations": [], "states": set(), "max_depth": 0}
+    queue = list(queue)
+    i = 0
+    while i < len(queue):
+        hist = queue[i]
+        i += 1
+        vio, vis, oc = check_history(hist, ref)
+        out["evals"] += 1
+        out["outcomes"]["hist:" + oc] = out["outcomes"].get("hist:" + oc, 0) + 1
+        if vio:
+            out["violations"].extend(vio)
+            break
+        if oc == "ok":
+            out["states"].add(vis)
+            out["max_depth"] = max(out["max_depth"], len(hist))
+            if any(o[0] not in ("read", "read_path", "read_opts") for o in hist):
+                out["nontriv"] += 1
+            if len(hist) < depth:
+                for op in alpha:
+                    queue.append(hist + [op])
+    _cleanup_scratch()
+    return out, queue[i:]
+
+
 def run_unit(unit):
+    from ..core import isolate
     res = {"evals": 0, "nontrivial": 0, "outcomes": {}, "violations": [], "samples": [], "extra": {},
            "states": set(), "transitions": 0, "traces": 0, "max_depth": 0}
     if unit["kind"] == "chan":
-        pts = channel_points()[unit["range"][0]:unit["range"][1]]
-        for pt in pts:
-            vio = check_channel(pt)
-            res["evals"] += 1
-            res["extra"]["channel_reads"] = res["extra"].get("channel_reads", 0) + 1
-            res["outcomes"]["chan:" + ("violation" if vio else "ok")] = res["outcomes"].get("chan:" + ("violation" if vio else "ok"), 0) + 1
-            res["violations"].extend(vio)
-        if pts:
-            res["samples"].append({"channel_point": pts[0]})
-        res["violations"] = e1.compress(res["violations"])
-        return res
+        return isolate.call(_chan_unit, unit["range"])
     ref = _REF.get("digest") or reference_digest()
     _REF["digest"] = ref
     if unit["kind"] == "hist0":
-        vio, vis, oc = check_history([], ref)
-        res["evals"] = res["transitions"] = res["traces"] = 1
-        res["violations"] = vio
-        res["states"] = {vis} if vis else set()
-        res["outcomes"]["hist:" + oc] = 1
-        return res
-    alpha = alphabet()
-    depth = unit["depth"]
-    frontier = [[unit["first"]]]
-    nontriv = 0
-    for d in range(1, depth + 1):
-        nxt = []
-        for hist in frontier:
-            vio, vis, oc = check_history(hist, ref)
-            res["evals"] += 1
-            res["transitions"] += 1
-            res["traces"] += 1
-            res["outcomes"]["hist:" + oc] = res["outcomes"].get("hist:" + oc, 0) + 1
-            res["violations"].extend(vio)
-            if oc == "ok":
-                res["states"].add(vis)
-                res["max_depth"] = max(res["max_depth"], d)
-                if any(o[0] not in ("read", "read_path", "read_opts") for o in hist):
-                    nontriv += 1
-                if d < depth:
-                    for op in alpha:
-                        nxt.append(hist + [op])
-        frontier = nxt
-    res["nontrivial"] = nontriv
-    res["samples"].append({"history_sample": [unit["first"]] + ([alpha[3], alpha[5]] if depth >= 3 else [])})
+        queue, depth = [[]], 0
+    else:
+        queue, depth = [[unit["first"]]], unit["depth"]
+    forks = 0
+    while queue:
+        out, queue = isolate.call(_process_queue, queue, depth, ref)
+        forks += 1
+        res["evals"] += out["evals"]
+        res["transitions"] += out["evals"]
+        res["traces"] += out["evals"]
+        res["nontrivial"] += out["nontriv"]
+        res["states"] |= out["states"]
+        res["max_depth"] = max(res["max_depth"], out["max_depth"])
+        for k, v in out["outcomes"].items():
+            res["outcomes"][k] = res["outcomes"].get(k, 0) + v
+        res["violations"].extend(out["violations"])
+    res["extra"]["fresh_processes"] = forks
+    if unit["kind"] == "hist":
+        alpha = alphabet()
+        res["samples"].append({"history_sample": [unit["first"]] + ([alpha[3], alpha[5]] if depth >= 3 else [])})
     res["violations"] = e1.compress(res["violations"])
     return res
 
